@@ -92,3 +92,12 @@ check("C19", "exploration",
       "fired at least once (per-rule counters) on the bundled corpus + grammar workload.",
       "a rule silent on the bundled corpus is reported as unable to fire",
       "sys.monitoring import-time event log + per-rule firing counters + match-event monitor vs registry/AST/model", "DESIGN.md 3/C19")
+
+check("C13", "fault_enumeration",
+      "Every expiry point (the deadline placed between any two consecutive reads of a virtual clock) of small inputs and "
+      "stratified expiry points of inputs with exponentially many candidate sequences: never raises, yields are a prefix of "
+      "the unlimited run's, ctparse() returns the best of the prefix or an empty result, no work event after the check that "
+      "raised, at most one pre-filter analysis and |rules| x |matches| applications/scorings between two consecutive "
+      "checks, timeout=0 never expires.",
+      "the deadline closure is the library's own; only the clock it reads is virtual; shipped scorer",
+      "virtual clock + ordered event trace (checks, analyses, applications, scorings, yields) with trace predicates; exhaustive expiry-point enumeration", "DESIGN.md 3/C13")
